@@ -231,7 +231,7 @@ LinesG ==
     <<"x", ">", "c">>, <<"x", ">", "c", "a">>, <<">", "c", "a">>, <<"x", "'c'">>, <<"x", "BSc">>,
     <<"x", "v=c">>, <<"v=c", "c">>, <<"!", "x", "c">>, <<"x", "|", "x", "c">>,
     <<"{", "x", "c", ";", "}">>, <<"{", "x", ";", "c">>, <<"if", "x", "c", ";", "then", "x", ";", "fi">>,
-    <<"x", LC, "c", "a">>, <<"x", "c", "c">>, <<"x", "b", "c", "a">> }
+    <<"x", LC, "c", "a">>, <<"x", "c", LC, "a">>, <<"c", LC, "a", LC, "b">>, <<"x", "c", "c">>, <<"x", "b", "c", "a">> }
 
 LinesT == Cat3(Pres, Cores, Sufs)
 
@@ -260,7 +260,10 @@ vars == <<tb, line, st>>
 RECURSIVE Reach(_, _, _)
 Reach(t, S, n) == IF n = 0 THEN S
                   ELSE Reach(t, S \cup UNION {{t[m].toks[j] : j \in 1..Len(t[m].toks)} : m \in S \cap DOMAIN t}, n - 1)
-LineToks(l) == {l[i] : i \in 1..Len(l)}
+\* tokens of the line, plus the names that occur in it quoted or in an
+\* assignment word (these must NOT be substituted: keep the alias defined)
+Deco(n) == {"'" \o n \o "'", "BS" \o n, "v=" \o n}
+LineToks(l) == {l[i] : i \in 1..Len(l)} \cup {n \in Names : \E i \in 1..Len(l) : l[i] \in Deco(n)}
 
 Init == /\ tb \in Tables
         /\ line \in Lines
@@ -326,7 +329,7 @@ OnlyEligibleReplaced ==
 
 -----------------------------------------------------------------------------
 \* Generator: one JSON line per final state (spec -> implementation)
-Relevant == ~Prune \/ DOMAIN tb \subseteq st.seen
+Relevant == ~Prune \/ DOMAIN tb \subseteq st.seen \cup LineToks(line)
 
 Emit == IF Done(st) /\ Relevant
         THEN PrintT(ToJson([tb |-> tb, line |-> line, out |-> st.out,
